@@ -89,6 +89,43 @@ theorem C09_cmyk_roundtrip_partial (c k t : Int) (hk : 0 ≤ k ∧ k ≤ c) (_hc
 /-- the hypotheses of the round trip theorem are met by the exact floor (non-vacuity, c=200 k=40: t = 189) -/
 example : (189 : Int) * (255 - 40) ≤ (200 - 40) * 255 ∧ 2 * ((200 - 40) * 255 - 189 * (255 - 40)) ≤ 3 * (255 - 40) := by decide
 
+/-! ## the 16-bit integer kernels (cmyk16 -> rgb16, premultiplication) -/
+
+/-- 16-bit channel_multiply is ⌊a*b/65535⌋ (no wrap), never exceeds b -/
+theorem C09_mul16_closed (a b : Int) (ha : 0 ≤ a ∧ a ≤ 65535) (hb : 0 ≤ b ∧ b ≤ 65535) :
+    mul_u16 a b = a * b / 65535 ∧ 0 ≤ mul_u16 a b ∧ mul_u16 a b ≤ b := by
+  have h0 : 0 ≤ a * b := Int.mul_nonneg ha.1 hb.1
+  have h1 : a * b ≤ 65535 * b := Int.mul_le_mul_of_nonneg_right ha.2 hb.1
+  unfold mul_u16
+  generalize a * b = p at *
+  have e : p % 4294967296 = p := Int.emod_eq_of_lt h0 (by omega)
+  rw [e]
+  have q0 : 0 ≤ p / 65535 := Int.ediv_nonneg h0 (by decide)
+  have q1 : p / 65535 ≤ b := by omega
+  have e2 : p / 65535 % 65536 = p / 65535 := Int.emod_eq_of_lt q0 (by omega)
+  rw [e2]
+  exact ⟨rfl, q0, q1⟩
+
+/-- one channel of cmyk16 -> rgb16: 65535 - (mul(x, 65535-k) + k), no wrap, no clamp, in range -/
+theorem C09_cmyk_chan16 (x k : Int) (hx : 0 ≤ x ∧ x ≤ 65535) (hk : 0 ≤ k ∧ k ≤ 65535) :
+    cmykChan .d16 x k = 65535 - (mul_u16 x (65535 - k) + k) ∧ 0 ≤ cmykChan .d16 x k ∧ cmykChan .d16 x k ≤ 65535 := by
+  have ⟨_, m0, m1⟩ := C09_mul16_closed x (65535 - k) hx (by omega)
+  unfold cmykChan chMul chInv invert_u16 Depth.maxV
+  simp only []
+  have e : (65535 - k + 0) % 65536 = 65535 - k := by omega
+  rw [e]
+  generalize mul_u16 x (65535 - k) = m at *
+  split <;> omega
+
+/-- the premultiplied 16-bit channel is below r*a/65535 by less than one unit and never exceeds the alpha -/
+theorem C09_premultiply16 (r a : Int) (hr : 0 ≤ r ∧ r ≤ 65535) (ha : 0 ≤ a ∧ a ≤ 65535) :
+    -65535 < 65535 * chMul .d16 r a - r * a ∧ 65535 * chMul .d16 r a - r * a ≤ 0 ∧ chMul .d16 r a ≤ a := by
+  have ⟨e, _, h⟩ := C09_mul16_closed r a hr ha
+  show -65535 < 65535 * mul_u16 r a - r * a ∧ 65535 * mul_u16 r a - r * a ≤ 0 ∧ mul_u16 r a ≤ a
+  rw [e]; generalize r * a = p at *; omega
+
+example : cmykChan .d16 20000 30000 = 24691 ∧ chMul .d16 40000 50000 = 30518 := by decide
+
 /-! ## the `double` scale factor through the oracle table (extracted from the compiled code, Model/C09Table.lean) -/
 
 /-- what one table entry must satisfy: a byte, never above the exact scaled value d*255/(255-k), at most 1.5 below it -/
